@@ -14,7 +14,7 @@ use worterbuch::{Config, Endpoint, WsEndpoint, spawn_worterbuch};
 
 const SECRET: &str = "verif-secret";
 
-fn free_port() -> u16 {
+pub(crate) fn free_port() -> u16 {
     use std::sync::atomic::{AtomicU32, Ordering};
     static NEXT: AtomicU32 = AtomicU32::new(0);
     let base = 45000 + (std::process::id() % 8) * 1000;
@@ -35,7 +35,7 @@ fn find(hay: &[u8], needle: &[u8]) -> Option<usize> {
     hay.windows(needle.len()).position(|w| w == needle)
 }
 
-async fn http(port: u16, method: &str, path: &str, token: Option<&str>, body: Option<&[u8]>) -> Option<(u16, Vec<u8>)> {
+pub(crate) async fn http(port: u16, method: &str, path: &str, token: Option<&str>, body: Option<&[u8]>) -> Option<(u16, Vec<u8>)> {
     let mut stream = TcpStream::connect(("127.0.0.1", port)).await.ok()?;
     let b = body.unwrap_or(b"");
     let auth = token.map(|t| format!("Authorization: Bearer {t}\r\n")).unwrap_or_default();
@@ -80,7 +80,7 @@ fn sort_keys(v: &Value) -> Value {
     }
 }
 
-fn canon(endpoint: &str, body: &[u8]) -> String {
+pub(crate) fn canon(endpoint: &str, body: &[u8]) -> String {
     let text = String::from_utf8_lossy(body).to_string();
     match endpoint {
         "set" | "publish" | "import" => "ok".to_owned(),
